@@ -491,6 +491,21 @@ class Printer:
                 self.fire('vec:push_back')
                 a = self.skip(args[0])
                 return '(%s.data[%s.size] = %s, %s.size++)' % (os_, os_, self.e(a), os_)
+            if m == 'emplace_back' and len(args) > 1:
+                # in-place construction of a record element: same constructor-parameter -> field map as an explicit temporary
+                q0, d0 = self.qt(o)
+                t0 = Types.strip(d0 or q0)
+                if me.get('isArrow'):
+                    t0 = t0.rstrip('* ').strip()
+                mm = re.match(r'^(?:std::)?vector<(.*)>$', t0)
+                el = split_targs(mm.group(1))[0] if mm else None
+                cm = self.unit.get('ctors', {})
+                if el in cm and len(cm[el]) == len(args):
+                    self.fire('vec:emplace_back-record')
+                    elc = self.T.c(el)
+                    lit = '((%s){%s})' % (elc, ', '.join('.%s = %s' % (f, self.e(self.skip(a))) for f, a in zip(cm[el], args)))
+                    return '(%s.data[%s.size] = %s, %s.size++)' % (os_, os_, lit, os_)
+                self.brk('emplace_back with %d args on %s' % (len(args), t0), n)
             if m == 'pop_back':
                 self.fire('vec:pop_back')
                 return '(%s.size--)' % os_
